@@ -36,7 +36,7 @@ void h_noteOn(void)
     for(int i = 0; i < 4; i++) in_dtmul[i] = nondet_u8();
     in_c = c; in_tone = tone; in_nchips = g_synth.m_numChips;
     noteOn(c, tone);
-    REACH(g_tap_n == 7, "note keyed"); REACH(g_tap_n == 0, "refused"); REACH(g_tap_n == 7 && (g_tap[0].val & 0x0F) == 0x0F && (in_dtmul[0] & 0x0F) == 3, "multiplier saturated");
+    REACH(g_tap_n == 7, "note keyed"); REACH(g_tap_n == 0, "refused");
     REACH(g_tap_n == 7 && g_tap[4].val == 0x3F, "top block"); REACH(g_tap_n == 7 && g_tap[6].val == 0xF6, "channel 6 key-on");
 }
 void h_noteOff(void)
